@@ -258,6 +258,8 @@ class Judge:
                 ec, ed = self.ref.expect(n, G, win)
                 if nl != ec or dig != ed or not fmt:
                     kind = 'missing-lines' if nl < ec else ('extra-lines' if nl > ec else 'wrong-content')
+                    if 'dyn' in self.case.get('opts', []):
+                        kind += ':dyn-window'
                     self.v('%s:content:%s' % (P, kind), '%s frame %d granted=0x%x: got %d lines digest %016x fmt=%d, expected %d lines digest %016x\nexpected lines: %s'
                            % (name, n, G, nl, dig, fmt, ec, ed, ' | '.join(self.ref.describe(n, G, win))))
                 prev = n
@@ -318,6 +320,12 @@ class Judge:
                 if G is not None and not lost:
                     lost = True
                     self.lost_connections.append((name, e[2]))
+        if self.res['clients'][idx]['rc'] != 0 and ev:
+            # the process died (sanitizer abort, watchdog kill): its connection went away no earlier than its last log line
+            t_last = max(e[1] for e in ev)
+            if sess is not None and sess['end'] is None:
+                sess['end'] = t_last
+            tok.append(('gone', t_last))
         self.tok_events.append((idx, name, 'lib', tok))
 
     # -------------------------------------------------------------------------------------------------------
@@ -354,6 +362,8 @@ class Judge:
             self.nt_fault = True
         if reached_forward:
             self.classes.add('raw-connected')
+        if self.res['clients'][idx]['rc'] != 0 and ev:
+            tok.append(('gone', max(e[1] for e in ev)))
         self.tok_events.append((idx, name, 'raw', tok))
 
     # -------------------------------------------------------------------------------------------------------
@@ -381,8 +391,7 @@ class Judge:
                 state = 'C'
         if lines:
             self.classes.add('device-opened')
-        if self.res.get('daemon_alive_at_end') and state == 'O' and self.res.get('closed_after') is None \
-                and not any('watchdog' in s for s in self.inconclusive):
+        if self.res.get('daemon_alive_at_end') and self.res.get('open_at_end') and not any('watchdog' in s for s in self.inconclusive):
             self.v(P + ':device-not-closed', 'all clients left, the simulated device was still open 5 s later\n' + '\n'.join(self.res['simlog'][-6:]))
         # rounds of update_services calls
         rounds = []
